@@ -52,6 +52,11 @@ def _shift_raw(val, shift, n_word):
     if shift > 0 and n_word is not None and n_word + shift >= 64 and isinstance(val, (np.ndarray, np.generic)) and val.dtype != object:
         # (an object array is returned, even for a single value, to not be confused with unsigned 64 bits values)
         return np.array(np.array(val).astype(object) * 2**shift, dtype=object)
+    if shift < 0 and n_word is not None and n_word > 53:
+        # (a float factor would drop the low bits of words over 53 bits: exact rational values are returned, to be rounded later)
+        _val = np.asarray(val)
+        if _val.dtype.kind in 'iu' or (_val.dtype == object and all(isinstance(v, (int, np.integer)) for v in _val.flat)):
+            return np.array([Fraction(int(v), 2**(-shift)) for v in _val.flat], dtype=object).reshape(_val.shape)
     return val * 2**shift
 
 try:
